@@ -1,4 +1,6 @@
-/- Driver for C17: line = "(kind behaviour (op …))<TAB>implObs"; see harness/props/c17. -/
+/- Driver for C17: line = "(kind behaviour (op …) [shape])<TAB>implObs"; see harness/props/c17.
+   The command shape (sh | sha | ex | exa) is parsed and validated but has no influence on the model run
+   (`runIn`): the implementation's observation is compared with the same model observation for every shape. -/
 import ControlModel.Model.ExecTask
 import ControlModel.Spec.C17
 
@@ -65,23 +67,36 @@ def hypOf (k : Kind) (b : Beh) (ops : List Op) (o : Obs) : String :=
     if nv killLive then "basic_kill_spares_child"
     else if nv killHelpers then "ctl_kill_spares_helpers"
     else "-"
+  else if !stopTerminates k ops o then
+    if nv stopSpares then "basic_stop_spares_helpers"
+    else "-"
   else "-"
+
+def judge (k : Kind) (b : Beh) (shp : Shape) (ops : List Op) (impl : String) : String :=
+  if !validCase k b || !validShape k b shp then "BADINPUT\t0\t-" else
+  let model := obsSx (runIn codeCfg k b shp ops).obs
+  match (SExp.parse impl).bind parseObs with
+  | some o =>
+    let spec := SpecAll k ops o
+    s!"{model}\t{if spec then 1 else 0}\t{if spec then "-" else hypOf k b ops o}"
+  | none => s!"{model}\t0\t-"
 
 def processLine (line : String) : String :=
   match SExp.fields line with
   | [inp, impl] =>
-    match SExp.parse inp with
-    | some (.list [.atom ks, .atom bs, .list opsx]) =>
+    let go (ks bs : String) (opsx : List SExp) (shape : Option String) : String :=
       match Kind.parse? ks, Beh.parse? bs, opsx.mapM? (fun x => do Op.parse? (← x.str?)) with
       | some k, some b, some ops =>
-        if !validCase k b then "BADINPUT\t0\t-" else
-        let model := obsSx (run codeCfg k b ops).obs
-        match (SExp.parse impl).bind parseObs with
-        | some o =>
-          let spec := Spec ops o
-          s!"{model}\t{if spec then 1 else 0}\t{if spec then "-" else hypOf k b ops o}"
-        | none => s!"{model}\t0\t-"
+        match shape with
+        | none => judge k b (Shape.default b) ops impl
+        | some t =>
+          match Shape.parse? t with
+          | some shp => judge k b shp ops impl
+          | none => "BADINPUT\t0\t-"
       | _, _, _ => "BADINPUT\t0\t-"
+    match SExp.parse inp with
+    | some (.list [.atom ks, .atom bs, .list opsx]) => go ks bs opsx none
+    | some (.list [.atom ks, .atom bs, .list opsx, .atom t]) => go ks bs opsx (some t)
     | _ => "BADINPUT\t0\t-"
   | _ => "BADLINE\t0\t-"
 
